@@ -368,9 +368,12 @@ func runC06(c *Ctx) {
 	}
 
 	// ---------- R1 (continued): oversized message in a session (cannot know whether it was extended)
-	if h := c.P.Func("wire", "handleMessageSizeExceeded"); h != nil {
+	if h, slurp := c.exceededRecovery(); h != nil {
 		ec := c.P.Func("wire", "ErrorCode")
 		for _, ci := range callsIn(h, calleeIs(ec)) {
+			if !core.InstrDominates(slurp, ci) {
+				continue
+			}
 			R.Fail("C06.R1", "SizeExceeded:ErrorCode(size-exceeded-error):ReadyForQuery-outside-Sync", c.at(ci), "ReadyForQuery is sent only in reply to Sync (or at the end of a simple Query)", "an oversized extended-protocol message is answered with ErrorResponse + ReadyForQuery; Parse(oversized) Sync yields E Z Z")
 		}
 	}
